@@ -29,6 +29,7 @@ type Call struct {
 // It is shared by both clientset decorators.  Decorators, not reactors: the fake clientsets run reactors under
 // their own lock.
 type Counter struct {
+	G     *Gate // optional: parks / records accesses for the lock-exclusion probe
 	mu    sync.Mutex
 	N     int
 	Fault int
@@ -43,6 +44,7 @@ func (c *Counter) Reset(fault int) {
 
 // tick counts one call and says whether it must fail.
 func (c *Counter) tick(verb, res, name string) bool {
+	c.G.Hit("client", verb+" "+res+" "+name)
 	c.mu.Lock()
 	defer c.mu.Unlock()
 	c.N++
